@@ -113,6 +113,9 @@ FIXED = [
     ("unexported-in-lit", "T{X: hidden}", "T", N("CompositeLit", ID, N("KeyValueExpr", ID, ID)), "unexported"),
     ("unexported-field-key", "T{X: 1, h: 2}", "T", N("CompositeLit", ID, N("KeyValueExpr", ID, LIT), N("KeyValueExpr", ID, LIT)), "unexported"),
     ("unexported-field-sel", "Val.h", "int", N("SelectorExpr", ID, ID), "unexported"),
+    ("unexported-positional", "T{1, nil, 2}", "T", N("CompositeLit", ID, LIT, ID, LIT), "unexported"),
+    ("unexported-positional-nested", "[]*T{{3, nil, 4}}", "[]*T", N("CompositeLit", N("ArrayType", N("StarExpr", ID)), N("CompositeLit", LIT, ID, LIT)), "unexported"),
+    ("positional-exported-only", "struct{ In T }{T{X: 1}}", "struct{ In T }", N("CompositeLit", N("StructType", N("FieldList", N("Field", ID, ID))), N("CompositeLit", ID, N("KeyValueExpr", ID, LIT))), "conservative"),
     ("unexported-method-value", "Val.unexp", "func() int", N("SelectorExpr", ID, ID), "unexported"),
     ("unexported-method-expr", "T.unexp", "func(T) int", N("SelectorExpr", ID, ID), "unexported"),
 ]
@@ -296,7 +299,7 @@ def run_c13(rep, tier):
             if not accepted and want_ok:
                 fails.append({"stream": "c13", "why": ["wire.Value(%s) written %s was rejected: %s" % (expr, where, err.strip()[:300])], "expression": expr})
             if not accepted:
-                want_msg = {"complex": "too complex", "iface": "may not be an interface value", "unexported": "unexported identifier"}.get(verdict)
+                want_msg = {"complex": "too complex", "iface": "may not be an interface value", "unexported": "unexported"}.get(verdict)
                 if want_msg and want_msg not in err:
                     fails.append({"stream": "c13", "why": ["wire.Value(%s) rejected with an unexpected diagnostic: %s" % (expr, err.strip()[:300])]})
             if accepted:
